@@ -118,6 +118,28 @@ def _clone_initial(v):
     return v
 
 
+def mutated_containers(mod):
+    """names used as the base of a subscript store / delete or of a mutating method call anywhere in the module"""
+    mc = getattr(mod, '_mutated_containers', None)
+    if mc is None:
+        from .ir import walk
+        mc = set()
+        MUT = ('append', 'extend', 'update', 'add', 'pop', 'popitem', 'clear', 'setdefault', 'insert', 'remove', 'discard', 'sort', 'reverse')
+        funcs = list(mod.functions.values()) + [f for c in mod.classes.values() for f in c.methods.values()]
+        for f in funcs:
+            if f.body is None:
+                continue
+            for n in walk(f.body):
+                if n.k in ('Assign', 'AugAssign', 'Delete'):
+                    for t in (n.f.get('targets') or [n.f.get('target')]):
+                        if t is not None and getattr(t, 'k', None) == 'Index' and t.base.k == 'Name':
+                            mc.add(t.base.id)
+                elif n.k == 'Call' and n.func.k == 'Attr' and n.func.attr in MUT and n.func.obj.k == 'Name':
+                    mc.add(n.func.obj.id)
+        mod._mutated_containers = mc
+    return mc
+
+
 def mutable_globals(mod):
     """names declared `global` inside some function of the module and assigned there"""
     cached = getattr(mod, '_mutable_globals', None)
@@ -353,6 +375,10 @@ class Exec(object):
                         ta.setdefault(st.targets[0].id, []).append(st.value)
                 mod._toplevel_assigns = ta
             if name in ta and len(ta[name]) == 1 and name not in mutable_globals(mod):
+                if ta[name][0].k in ('Dict', 'List', 'Set', 'Call') and name in mutated_containers(mod):
+                    # a module-level container that some function of the module writes into (a cache, a registry): its content at the entry of
+                    # the function under contract is whatever earlier calls left there - not its initialiser. Not modelled: undecided, never "held"
+                    raise Unsupported('module-level container %r is written by functions of the module: its content at function entry is arbitrary (line %s)' % (name, line))
                 v = self.eval(ta[name][0])
                 g[name] = v
                 return v
